@@ -275,6 +275,12 @@ def bounded(fn):
     return wrapper
 
 
+def ok(x):
+    """the canonical text of a result: a result that is not the text it should be (None from a function that fell off its end) is shown as
+    it is, not mistaken for a refusal by a TypeError inside the harness"""
+    return "ok " + (x if isinstance(x, str) else repr(x))
+
+
 def clip(x, n=400):
     if isinstance(x, str) and len(x) > n: return x[:n] + "...(%d chars)" % len(x)
     if isinstance(x, (list, tuple)): return [clip(y, n) for y in x][:40]
